@@ -145,6 +145,12 @@ pub fn check_pair(rep: &mut Report, a: (u32, u32), b: (u32, u32), seed: u64) {
     if sa.partial_cmp(&sb) != want_ord {
         bad!("partial_cmp", "[{}].partial_cmp([{}]) = {:?}, expected {:?}", txt(a), txt(b), sa.partial_cmp(&sb), want_ord);
     }
+    // the comparison operators follow the partial order (lt/le/gt/ge may be implemented separately)
+    let ops = (sa < sb, sa <= sb, sa > sb, sa >= sb);
+    let want_ops = (want_ord == Some(Ordering::Less), matches!(want_ord, Some(Ordering::Less) | Some(Ordering::Equal)), want_ord == Some(Ordering::Greater), matches!(want_ord, Some(Ordering::Greater) | Some(Ordering::Equal)));
+    if ops != want_ops {
+        bad!("partial_cmp", "[{}] vs [{}]: (<, <=, >, >=) = {:?}, expected {:?}", txt(a), txt(b), ops, want_ops);
+    }
     if (sa == sb) != (a == b) {
         bad!("eq", "[{}] == [{}] is {}", txt(a), txt(b), sa == sb);
     }
